@@ -21,6 +21,8 @@ type C19Case struct {
 	// Cmd: "" = generate from stdin; otherwise a command built on generate that reads the same text
 	// from regex-assembly/932100.ra: generate-id | update | compare | format | format-check
 	Cmd string `json:"cmd,omitempty"`
+	// MaxFiles: descriptor limit for the run (include cycles end when descriptors run out; 0 = inherited)
+	MaxFiles int `json:"max_files,omitempty"`
 }
 
 var hostile = []string{`\(?i:`, `\(?i:a`, `[(]?-s:`, `\x28?i:`, `(?:a\)|b)`, `[|]`, `\|`, `[\\]`, `\(?s)`, `\(?-s:.)`, `\(?m:^)`, `[(]?i:x)`, `\(?i:a|b)`, `(?:`, `)`, `(`, `[`, `]`, `{{`, `}}`, `{{x}}`,
@@ -112,6 +114,27 @@ func genC19(t *rapid.T) C19Case {
 		pos := rapid.IntRange(0, len(g.Prog.Main)).Draw(t, "hdpos")
 		g.Prog.Main = append(g.Prog.Main[:pos], append([]ragen.Line{l}, g.Prog.Main[pos:]...)...)
 	}
+	// include files that include each other (or themselves): no regex exists, the command must say so promptly
+	cyc := rapid.IntRange(0, 29).Draw(t, "cycle")
+	if cyc < 3 {
+		dir := rapid.SampledFrom([]string{"include/", "include/", "exclude/"}).Draw(t, "cycdir")
+		switch cyc {
+		case 0:
+			c.Files[dir+"cyc-a.ra"] = "one\n##!> include cyc-b\n"
+			c.Files[dir+"cyc-b.ra"] = "two\n##!> include cyc-a\nthree\n"
+		case 1:
+			c.Files[dir+"cyc-a.ra"] = "one\n##!> include cyc-a\n"
+		default:
+			c.Files[dir+"cyc-a.ra"] = "one\n##!> include-except cyc-b cyc-c\n"
+			c.Files[dir+"cyc-b.ra"] = "two\n##!> include cyc-a\n"
+			c.Files[dir+"cyc-c.ra"] = "three\n"
+		}
+		l := ragen.Line{K: ragen.KRaw, T: "##!> include cyc-a"}
+		pos := rapid.IntRange(0, len(g.Prog.Main)).Draw(t, "cycpos")
+		g.Prog.Main = append(g.Prog.Main[:pos], append([]ragen.Line{l}, g.Prog.Main[pos:]...)...)
+		c.MaxFiles = 256
+		c.Kind = "program-with-include-cycle"
+	}
 	c.Stdin = g.Prog.MainText()
 	c.Cmd = rapid.SampledFrom([]string{"", "", "", "", "", "generate-id", "update", "compare", "format", "format-check"}).Draw(t, "cmd")
 	for n, l := range g.Prog.Files {
@@ -170,9 +193,9 @@ func runC19(c C19Case, timeout time.Duration) cli.Result {
 	case "format-check":
 		args = append(args, "format", "--check", "932100")
 	default:
-		return cli.Run(cli.Opt{Dir: sb.Root, Stdin: c.Stdin, Timeout: timeout}, append(args, "generate", "-")...)
+		return cli.Run(cli.Opt{Dir: sb.Root, Stdin: c.Stdin, Timeout: timeout, MaxFiles: c.MaxFiles}, append(args, "generate", "-")...)
 	}
-	return cli.Run(cli.Opt{Dir: sb.Root, Timeout: timeout}, args...)
+	return cli.Run(cli.Opt{Dir: sb.Root, Timeout: timeout, MaxFiles: c.MaxFiles}, args...)
 }
 
 func checkC19(c C19Case) Outcome {
